@@ -121,6 +121,7 @@ _BUILTIN_EXC_TREE = {
     "ImportError": ["Exception"],
     "ModuleNotFoundError": ["ImportError"],
     "NameError": ["Exception"],
+    "UnboundLocalError": ["NameError"],
     "MemoryError": ["Exception"],
     "Warning": ["Exception"],
 }
@@ -191,6 +192,19 @@ def _own_nodes(fn_node):
             if isinstance(c, (ast.FunctionDef, ast.AsyncFunctionDef, ast.Lambda, ast.ClassDef)):
                 continue
             stack.append(c)
+
+
+def _own_nodes_ordered(fn_node):
+    """Pre-order (source order) traversal of a function body excluding nested function / class / lambda bodies."""
+    def walk(n):
+        yield n
+        for c in ast.iter_child_nodes(n):
+            if isinstance(c, (ast.FunctionDef, ast.AsyncFunctionDef, ast.Lambda, ast.ClassDef)):
+                continue
+            yield from walk(c)
+
+    for st in fn_node.body:
+        yield from walk(st)
 
 
 def is_generator(fn_node) -> bool:
@@ -299,6 +313,8 @@ class Interp:
             if extract.module_path(modname) is None:
                 raise OutOfSubset(f"module {modname} not found")
             mod = load_module(modname)
+            if mod.imports.get(attr) == ("from", modname, attr) and extract.module_path(sub):
+                return load_module(sub)  # `from pkg import submodule` inside pkg/__init__.py
             try:
                 return self.module_get(mod, attr)
             except KeyError:
@@ -319,7 +335,10 @@ class Interp:
             e = e.parent
         if mod is not None:
             try:
-                return self.module_get(mod, name)
+                v = self.module_get(mod, name)
+                if not (isinstance(v, Unknown) and "being evaluated" in v.why):
+                    return v
+                # `X = X` at module level (compat shims): the right-hand side is the builtin
             except KeyError:
                 pass
         return self.builtin_name(name)
@@ -338,7 +357,12 @@ class Interp:
             return Ellipsis
         if name == "__name__":
             return "module"
-        raise OutOfSubset(f"unknown name {name}")
+        import builtins as _b
+
+        if hasattr(_b, name):
+            raise OutOfSubset(f"builtin {name} is not modelled")
+        # not a local, not a module global, not a builtin: Python raises NameError / UnboundLocalError here
+        self.raise_builtin("NameError", f"name '{name}' is not defined")
 
     # ------------------------------------------------------------------ functions / classes
     def make_function(self, node, mod, closure, qualname, owner=None):
@@ -665,7 +689,9 @@ class Interp:
                 self.ghost[gname] = self.eval_spec(gcl, env)
             fac = getattr(self.reg, "exception_factories", {}).get(out)
             if fac is not None:
-                exc = fac(self)
+                import inspect as _inspect
+
+                exc = fac(self, env.vars) if len(_inspect.signature(fac).parameters) > 1 else fac(self)
                 cls = exc.cls
             else:
                 cls = self.resolve_exc_class(out, fn.module if fn else None)
@@ -736,7 +762,17 @@ class Interp:
                 pass
         ext = self.reg.exception_classes.get(name)
         if ext:
-            return self.resolve_class(ext) if ":" in ext else VClass(name, None, [builtin_class(ext)], builtin=True, is_exception=True)
+            if isinstance(ext, (list, tuple)):
+                key = "extexc:" + name
+                if key not in _BUILTIN_CLASSES:
+                    _BUILTIN_CLASSES[key] = VClass(name, None, [self.resolve_exc_class(b, None) for b in ext], builtin=True, is_exception=True)
+                return _BUILTIN_CLASSES[key]
+            if ":" in ext:
+                return self.resolve_class(ext)
+            key = "extexc:" + name
+            if key not in _BUILTIN_CLASSES:
+                _BUILTIN_CLASSES[key] = VClass(name, None, [builtin_class(ext)], builtin=True, is_exception=True)
+            return _BUILTIN_CLASSES[key]
         raise OutOfSubset(f"unknown exception class {name}")
 
     cur_name = "?"
@@ -1038,6 +1074,11 @@ class Interp:
                     return
                 raise
             return
+        if isinstance(cm, self.B.NoopCM):
+            if item.optional_vars is not None:
+                self.assign_target(item.optional_vars, cm.value, env)
+            self.with_items(items[1:], body, env)
+            return
         if isinstance(cm, VObj) and cm.cls.find_method("__enter__"):
             val = self.call(self.getattr(cm, "__enter__"), [], {})
             if item.optional_vars is not None:
@@ -1062,7 +1103,7 @@ class Interp:
 
     # loops -------------------------------------------------------------
     def x_While(self, s, env):
-        ordinal = self.next_loop_ordinal(env)
+        ordinal = self.next_loop_ordinal(env, s)
         inv = self.loop_invariant(env, ordinal)
         if inv is not None:
             return self.cut_loop(s, env, inv, ordinal, None)
@@ -1083,17 +1124,31 @@ class Interp:
             except _Continue:
                 continue
 
-    def next_loop_ordinal(self, env):
-        fq = env.fn.fq if env.fn else "?"
-        k = self.loop_counter.get((fq, id(env)), 0)
-        self.loop_counter[(fq, id(env))] = k + 1
-        return k
+    _loop_index_cache: dict = {}
+
+    def next_loop_ordinal(self, env, node=None):
+        """Static ordinal of a loop statement: its position among the for/while statements of the function, in source order."""
+        fenv = env
+        while fenv is not None and fenv.fn is None:
+            fenv = fenv.parent
+        if fenv is None or node is None:
+            return -1
+        fnode = fenv.fn.node
+        idx = Interp._loop_index_cache.get(id(fnode))
+        if idx is None:
+            loops = [n for n in _own_nodes_ordered(fnode) if isinstance(n, (ast.For, ast.While))]
+            idx = {id(n): k for k, n in enumerate(loops)}
+            Interp._loop_index_cache[id(fnode)] = idx
+        return idx.get(id(node), -1)
 
     def loop_invariant(self, env, ordinal):
-        if env.fn is None:
+        fenv = env
+        while fenv is not None and fenv.fn is None:
+            fenv = fenv.parent
+        if fenv is None:
             return None
-        c = self.reg.get(env.fn.fq)
-        if c is None or (env.fn.fq != self.top_target and not c.inline):
+        c = self.reg.get(fenv.fn.fq)
+        if c is None or (fenv.fn.fq != self.top_target and not c.inline):
             return None
         return c.invariants.get(ordinal)
 
@@ -1103,7 +1158,7 @@ class Interp:
 
     def x_For(self, s, env):
         it = self.eval(s.iter, env)
-        ordinal = self.next_loop_ordinal(env)
+        ordinal = self.next_loop_ordinal(env, s)
         if isinstance(it, SymSeq):
             inv = self.loop_invariant(env, ordinal)
             if inv is not None:
@@ -1149,6 +1204,8 @@ class Interp:
         idx_name = inv.get("index", "i")
         ienv = Env(parent=env, module=env.module)
         ienv.vars[idx_name] = 0
+        for gname, gcl in inv.get("snapshot", {}).items():
+            self.ghost[gname] = self.eval_spec(gcl, ienv)  # value at loop entry, not havoced
         for k, cl in enumerate(inv["clauses"]):
             self.path.oblige(f"{name}:inv-init#{k}", "loop-inv-init", truthy(self.eval_spec(cl, ienv)), detail=cl)
         # havoc
@@ -1586,7 +1643,7 @@ class Interp:
         c = self.reg.get(self.top_target)
         if c is None or not c.yield_effect:
             return
-        e = Env(module=fenv.module)
+        e = Env(parent=fenv, module=fenv.module)
         e.vars["event"] = v
         new = {g: self.eval_spec(cl, e) for g, cl in c.yield_effect.items()}
         self.ghost.update(new)
